@@ -53,11 +53,11 @@ for s in sorted(os.listdir(os.path.join(V, 'seeded'))):
     keys = ', '.join('`%s`' % k for k in (r[1][:2] if r else []))
     rows.append('| %s | %s | %s %s | %s |' % (s, summ, r[0] if r else 'NOT RUN', keys, notes.get(prop, '')))
 out += ['', '### 8.4 Seeded changes (independent sub-agents) and which checks catch them', '',
-        '%d changes were written by fresh sub-agents (seventeen rounds: <id>-1, <id>-2 early on; <id>-3 after all checks existed;' % len(rows),
+        '%d changes were written by fresh sub-agents (eighteen rounds: <id>-1, <id>-2 early on; <id>-3 after all checks existed;' % len(rows),
         '<id>-4 with the instruction to aim at interactions, carried state and boundary values; <id>-5 see below) that were given only the text of',
         'one property and a scratch git worktree of /repo (nothing from /verif).  Four of the twenty round-2 changes (C05-3,',
         'C10-3, C14-3, C19-3), five of the twenty round-3 changes (C04-4, C10-4, C13-4, C15-4, C19-4) and ten of the twenty',
-        'round-4 changes (<id>-5), ten of the twenty round-5 changes (<id>-6) eleven of the twenty round-6 changes (<id>-7) eight of the twenty round-7 changes (<id>-8) eight of the twenty round-8 changes (<id>-9) ten of the twenty round-9 changes (<id>-10) eight of the twenty round-10 changes (<id>-11) three of the twenty round-11 changes (<id>-12) nine of the twenty round-12 changes (<id>-13) three of the round-13 changes (<id>-14) six of the twenty round-14 changes (<id>-15) and twelve of the twenty round-15 changes (<id>-16, one of them not a violation of the property as stated) four of the twenty round-16 changes (<id>-17) and three of the twenty round-17 changes (<id>-18, one of them outside the documented input domain) (shared helpers, optional arguments, call',
+        'round-4 changes (<id>-5), ten of the twenty round-5 changes (<id>-6) eleven of the twenty round-6 changes (<id>-7) eight of the twenty round-7 changes (<id>-8) eight of the twenty round-8 changes (<id>-9) ten of the twenty round-9 changes (<id>-10) eight of the twenty round-10 changes (<id>-11) three of the twenty round-11 changes (<id>-12) nine of the twenty round-12 changes (<id>-13) three of the round-13 changes (<id>-14) six of the twenty round-14 changes (<id>-15) and twelve of the twenty round-15 changes (<id>-16, one of them not a violation of the property as stated) four of the twenty round-16 changes (<id>-17) three of the twenty round-17 changes (<id>-18, one of them outside the documented input domain) and six of the round-18 changes (<id>-19) (shared helpers, optional arguments, call',
         'order, data-dependent corners, flavour-specific paths, copy semantics; tables at the end of 8.2) escaped the checks as they were; each miss was an input class the generators did not produce, the generators',
         'were widened, and all %d changes are now caught by the quick tier.  Each change was confirmed' % len(rows),
         '(`tools/ingest_seed.py`: applies, the 37 pinned tests',
